@@ -473,7 +473,7 @@ func (s *state) appendHandler(
 		Body: "*",
 	}
 	if err := s.path.addRule(implicitRule, desc, h.method); err != nil {
-		panic(fmt.Sprintf("bug: %v", err))
+		return fmt.Errorf("[%s] invalid implicit rule %s: %w", desc.FullName(), h.method, err)
 	}
 
 	// Add all ServiceConfig.http rules.
